@@ -465,6 +465,17 @@ def gen_stale_histories(quick):
                 for k in range(3):
                     lines += [f"up Zed {hexs('class ZedUnrelatedModuleNumber%d {}' % k + chr(10))}", "q"]
                 out.append((lines, f"stale {a}->{b}{' +Third' if third else ''}"))
+    # module names (file / directory parts) that are ALREADY in the heap as identifiers, comments or
+    # literals when the module reference is first created (a class moved into a file named after it):
+    # the module-reference path promotes an interned temporary string to a permanent one
+    tiny = "class TinyModuleBodyWithLongName {}" + chr(10)
+    lines = ["reset", f"new Lib {hexs(_ST_LIB)} Main {hexs(_st_main())}", "q",
+             f"up HelperClassWithLongName {hexs(tiny)}", "q",                  # new file named after an existing class
+             "rn Main exportToJsonDocument", "q",                             # renamed to the name of an interface member
+             f"up pkg.fieldWithLongNameX.MainImplWithLongName {hexs(tiny)}", "q",   # directory part = field name, leaf = class name
+             f"up Lib {hexs(_ST_LIB2)}", "q", f"up Zed {hexs(tiny)}", "q", f"up Zed {hexs(tiny + tiny.replace('Tiny', 'Other'))}", "q",
+             "rm HelperClassWithLongName", "q", f"up HelperClassWithLongName {hexs(_ST_LIB)}", "q"]
+    out.append((lines, "module named after an identifier already in the heap"))
     return out
 
 
